@@ -279,6 +279,10 @@ func (w *World) isPureLib(f *ssa.Function) bool {
 		return !strings.HasPrefix(f.Name(), "Sort") && f.Name() != "Slice" && f.Name() != "Stable" && f.Name() != "SliceStable" && f.Name() != "Ints" && f.Name() != "Strings"
 	case "fmt":
 		return strings.HasPrefix(f.Name(), "Sprint") || f.Name() == "Errorf"
+	case "go.uber.org/zap", "go.uber.org/zap/zapcore", "github.com/openGemini/openGemini/lib/logger", "github.com/openGemini/openGemini/lib/statisticsPusher/statistics":
+		// logging / metrics: no effect on the state the contracts talk about (DESIGN §2.6)
+		w.usedLib["logging/metrics calls treated as having no caller-visible effect: "+f.Pkg.Pkg.Path()] = true
+		return true
 	}
 	return false
 }
